@@ -2259,6 +2259,10 @@ impl WasmGenerator {
             .any(|(_, instr)| match instr {
                 I::Call(fn_ptr, _, _) => !matches!(fn_ptr.as_ref(), mir::Value::ExtFunction(_, _)),
                 I::CallIndirect(_, _, _) | I::CallCls(_, _, _) => true,
+                // A closure may outlive the activation that creates it and shares the
+                // cells it captures with it: every activation needs cells of its own
+                // (two closures made by one function must not share their variables).
+                I::MakeClosure { .. } => true,
                 _ => false,
             })
     }
